@@ -44,6 +44,7 @@ type (
 		Forall bool
 		Vars   []EVar
 		Body   Expr
+		Pats   [][]Expr
 	}
 	EOld struct{ X Expr }
 )
@@ -342,8 +343,21 @@ func (p *exprParser) parsePrimary() Expr {
 				break
 			}
 			p.expectOp("::")
+			var pats [][]Expr
+			for p.isOp("{") {
+				p.pos++
+				var pat []Expr
+				for !p.isOp("}") {
+					pat = append(pat, p.parseIff())
+					if p.isOp(",") {
+						p.pos++
+					}
+				}
+				p.expectOp("}")
+				pats = append(pats, pat)
+			}
 			body := p.parseIff()
-			return &EQuant{Forall: t.text == "forall", Vars: vars, Body: body}
+			return &EQuant{Forall: t.text == "forall", Vars: vars, Body: body, Pats: pats}
 		case "old":
 			if p.isOp("(") {
 				p.pos++
